@@ -193,7 +193,7 @@ Definition c15_valid (c : c15_case) : Prop := v15 (c_engine c) mstate0 None [] (
 
 Definition J (e : engine) (s : mstate) (os : ost15) (el : list cid) : Prop :=
   WF (w_data (m_w s)) /\
-  (forall c, ~ In c el -> deal (p_lead (m_p s c)) = os_syncs os c) /\
+  (forall c, ~ In c el -> p_lead (m_p s c) = mkL (os_syncs os c) (os_syncs os c)) /\
   match os_leader os with
   | None => True
   | Some l => In l el /\ exists n cm, p_lead (m_p s l) = mkL n cm /\
@@ -251,20 +251,18 @@ Proof.
         unfold upd. apply N.eqb_neq in H. rewrite H. apply K. intros Hi. apply Hn. right. exact Hi. }
       cbn [os_leader os_base os_dump os_touched os_fresh os_last os_sbase m_p m_w].
       split; [left; reflexivity|].
-      exists (if deal (p_lead (m_p s c)) <? v then v else deal (p_lead (m_p s c))), v. split.
-      { unfold upd. rewrite N.eqb_refl. rewrite Pl. reflexivity. }
-      rewrite <- (K c Nel).
-      destruct (N.le_gt_cases (N.max (dmax (w_data w')) (deal (p_lead (m_p s c)))) v) as [Hle|Hgt].
+      rewrite (K c Nel) in Pl, Rate. cbn [deal] in Rate. unfold set_current in Pl. cbn [deal committed] in Pl.
+      exists (if os_syncs os c <? v then v else os_syncs os c), (if os_syncs os c <? v then v else os_syncs os c). split.
+      { unfold upd. rewrite N.eqb_refl. exact Pl. }
+      destruct (N.le_gt_cases (N.max (dmax (w_data w')) (os_syncs os c)) v) as [Hle|Hgt].
       * right. split; [exact Hle|].
-        assert (Hd : (deal (p_lead (m_p s c)) <? v) = true \/ deal (p_lead (m_p s c)) = v).
-        { destruct (N.eq_dec (deal (p_lead (m_p s c))) v); [right; assumption|left; apply N.ltb_lt; lia]. }
-        assert (En : (if deal (p_lead (m_p s c)) <? v then v else deal (p_lead (m_p s c))) = v).
-        { destruct Hd as [Hd|Hd]; [rewrite Hd; reflexivity|rewrite Hd, N.ltb_irrefl; reflexivity]. }
+        assert (En : (if os_syncs os c <? v then v else os_syncs os c) = v).
+        { destruct (os_syncs os c <? v) eqn:Q; [reflexivity|]. apply N.ltb_ge in Q. lia. }
         rewrite En. split; [reflexivity|]. split; [apply good_split; split; [rewrite Ed; exact W|lia]|].
         split; [lia|]. split; [lia|]. split; [reflexivity|]. intros _. auto.
       * left. split; [|exact Hgt].
         destruct e; try reflexivity; exfalso;
-          assert (dmax (w_data w') <= v /\ deal (p_lead (m_p s c)) <= v) by (apply Rate; discriminate); lia.
+          assert (dmax (w_data w') <= v /\ os_syncs os c <= v) by (apply Rate; discriminate); lia.
     + (* not acquired: nothing the oracle or the revision counters depend on changes *)
       cbn [o15_run o15_step].
       pose proof (elect_f_lead _ _ _ _ _ _ _ _ _ _ _ _ _ _ El ltac:(intros; discriminate)) as Pl.
@@ -287,8 +285,8 @@ Proof.
     eapply IH; cycle 1; [exact V|exact C|].
     split; [exact W|]. split.
     { intros c0 Hn. cbn [m_p os_syncs]. unfold upd. destruct (c0 =? c) eqn:E.
-      - apply N.eqb_eq in E. subst c0. cbn [p_lead]. unfold set_current; cbn [deal]. rewrite (K c Hn).
-        destruct (os_syncs os c <? r) eqn:L; [apply N.ltb_lt in L|apply N.ltb_ge in L]; lia.
+      - apply N.eqb_eq in E. subst c0. cbn [p_lead]. rewrite (K c Hn). unfold set_current; cbn [deal committed].
+        destruct (os_syncs os c <? r) eqn:L; [apply N.ltb_lt in L|apply N.ltb_ge in L]; f_equal; lia.
       - apply K. exact Hn. }
     cbn [os_leader os_base os_dump os_touched os_fresh os_last os_sbase m_w m_p].
     destruct (os_leader os) as [l|] eqn:L; [|exact I]. destruct Jl as [Hin [n [cm [Pn Jd]]]].
@@ -300,7 +298,7 @@ Proof.
     set (out := do_op (w_data (m_w s)) n op) in *. injection M as <- <-.
     assert (W' : WF (w_data (bump (mkW (w_lock (m_w s)) (d_store out) (w_commits (m_w s))) (d_commit out)))).
     { rewrite bump_data. cbn [w_data]. apply do_op_wf. exact W. }
-    assert (K' : forall q c0, ~ In c0 el -> deal (p_lead (upd (m_p s) c q c0)) = os_syncs os c0).
+    assert (K' : forall q c0, ~ In c0 el -> p_lead (upd (m_p s) c q c0) = mkL (os_syncs os c0) (os_syncs os c0)).
     { intros q c0 Hn. unfold upd. assert (c0 <> c) by (intros ->; exact (Hn Hin)). apply N.eqb_neq in H. rewrite H. apply K. exact Hn. }
     assert (P' : p_lead (upd (m_p s) c (mkP (p_lock (m_p s c)) (mkL (n + 1) (if n =? cm then n + 1 else cm))) c)
                  = mkL (n + 1) (if n =? cm then n + 1 else cm)).
